@@ -4,6 +4,7 @@ import (
 	"fmt"
 	"regexp"
 	"strings"
+	"unicode"
 )
 
 // Scan breaks a string into a sequence of Tokens.
@@ -72,7 +73,9 @@ func Scan(data string, loc SourceLoc, delims []string) (tokens []Token) {
 				Name:      data[m[4]:m[5]],
 			}
 			if m[6] > 0 {
-				tok.Args = data[m[6]:m[7]]
+				// (the pattern takes a blank into the arguments when it follows the first
+				// character of the closing delimiter: "{% capture v% %}", "<? capture ok? ?>")
+				tok.Args = strings.TrimRightFunc(data[m[6]:m[7]], unicode.IsSpace)
 			}
 			tokens = append(tokens, tok)
 			if source[len(source)-len(delims[3])-1] == '-' {
